@@ -125,6 +125,8 @@ class Program:
             if src is None:
                 src = p.read_text()
             self.modules[name] = Module(name, rel, src, ispkg)
+        for m in self.modules.values():
+            self._plain_assignments(m)
         self._undo_private_renames()
         for m in self.modules.values():
             for n in m.tree.body:
@@ -208,6 +210,32 @@ class Program:
                     n.attr = self.renamed[n.attr]
                 elif isinstance(n, ast.alias) and n.name in self.renamed:
                     n.name = self.renamed[n.name]
+
+    @staticmethod
+    def _plain_assignments(m):
+        """Annotated assignments (`x: int = 5`) are read as plain assignments, bare annotations (`x: int`) are dropped: type
+        hints do not change behaviour and the rules look for ast.Assign."""
+        changed = False
+        for node in ast.walk(m.tree):
+            for field in ('body', 'orelse', 'finalbody'):
+                blk = getattr(node, field, None)
+                if not (isinstance(blk, list) and blk and isinstance(blk[0], ast.stmt)):
+                    continue
+                out = []
+                for st in blk:
+                    if isinstance(st, ast.AnnAssign):
+                        changed = True
+                        if st.value is not None:
+                            out.append(ast.copy_location(ast.Assign(targets=[st.target], value=st.value), st))
+                        continue
+                    out.append(st)
+                if not out:
+                    out = [ast.copy_location(ast.Pass(), blk[0])]
+                setattr(node, field, out)
+        if changed:
+            for n in ast.walk(m.tree):
+                for c in ast.iter_child_nodes(n):
+                    c._parent = n
 
     def _undo_level_moves(self, by_rel):
         """A private helper that was turned from a module-level function into a method (first parameter = the former
@@ -499,16 +527,30 @@ class Program:
         """FuncInfo by 'Class.method' or 'modulebasename.function'."""
         f = self.functions.get(qual)
         if f is None:
+            f = self._moved(qual)
+        if f is None:
             raise AnalysisError("function %s not found (anchor vanished)" % qual)
         return f
+
+    def _moved(self, qual):
+        """A module-level function that is not where the reference tree has it but exists exactly once elsewhere in the
+        package under the same name was moved to another module (and is imported from there)."""
+        if '.' not in qual:
+            return None
+        mod, name = qual.rsplit('.', 1)
+        if mod in self.classes:
+            return None
+        hits = [f for q, f in self.functions.items() if f.cls is None and f.outer is None and f.name == name]
+        hits = list({id(f): f for f in hits}.values())
+        return hits[0] if len(hits) == 1 else None
 
     def opt_funcs(self, quals):
         """The functions among `quals` that exist.  For private helpers only: a helper that was inlined into its callers
         and deleted is analysed as part of those callers (which the rule lists contain anyway)."""
-        return [self.functions[q] for q in quals if q in self.functions]
+        return [self.func(q) for q in quals if self.has_func(q)]
 
     def has_func(self, qual):
-        return qual in self.functions
+        return qual in self.functions or self._moved(qual) is not None
 
     def subclasses_of(self, name):
         return [c for c in self.classes.values()
